@@ -19,3 +19,30 @@ Theorem C10_reopen_then_rollback : forall st n,
   snd (rollback (reopen st) n) = snd (rollback st n).
 Proof. exact Store_proofs.reopen_then_rollback. Qed.
 Print Assumptions C10_reopen_then_rollback.
+
+(* ------------------------------------------------------------------------------------------ *)
+(* At the level of the files: what ANY handle reads after opening a directory is a function of  *)
+(* the abstraction of the image alone (mirrors of the read path and of the merkle seek, proved   *)
+(* to refine the decoded image: C16_readpath_refines, C05_seek_refines).                         *)
+From Coq Require Import List NArith.
+From Nomt Require Import Hash Trie Result PathProof Image ReadPath SeekPath SeekPath_proofs Extra3_proofs.
+
+Theorem C10_same_abstraction_same_reads : forall fs1 img1 fs2 img2,
+  decode_image fs1 = Image.Ok img1 -> decode_image fs2 = Image.Ok img2 ->
+  wf_leaf_order img1 = true -> wf_branches img1 = true -> passes (wf_pages_ln_v img1) = true ->
+  wf_leaf_order img2 = true -> wf_branches img2 = true -> passes (wf_pages_ln_v img2) = true ->
+  abs img1 = abs img2 ->
+  forall k, lookup img1 k = lookup img2 k.
+Proof. exact Extra3_proofs.same_abs_same_lookup. Qed.
+Print Assumptions C10_same_abstraction_same_reads.
+
+Theorem C10_same_abstraction_same_proofs : forall (H : Hasher) (enc : node H -> list N) h1 h2 fs1 img1 fs2 img2,
+  decode_image fs1 = Image.Ok img1 -> decode_image fs2 = Image.Ok img2 ->
+  HasherOK H -> enc (TERM H) = ZERO_NODE -> (forall n, node_kind (enc n) = kind H n) ->
+  oracle_ok H enc h1 (ref_trie img1) -> oracle_ok H enc h2 (ref_trie img2) ->
+  wf_merkle h1 img1 = true -> wf_root img1 = true ->
+  wf_merkle h2 img2 = true -> wf_root img2 = true ->
+  abs_kv img1 = abs_kv img2 ->
+  forall k, length k = 256 -> seek_img h1 img1 k = seek_img h2 img2 k.
+Proof. exact Extra3_proofs.same_abs_same_seek. Qed.
+Print Assumptions C10_same_abstraction_same_proofs.
